@@ -292,6 +292,11 @@ class Ctx:
             return
         if goal is True:
             return
+        tb = self.contract.options.get("tier_b_kinds")
+        if tb and kind in tb:
+            # clause kinds this contract does not claim (served by the bounded stand-in only); counted, never registered
+            self.tier_b_skipped = getattr(self, "tier_b_skipped", 0) + 1
+            return
         ln = getattr(node, "lineno", None)
         col = getattr(node, "col_offset", None)
         base = "%s.%s%s@%s:%s" % (self.cur_func, kind, ("." + detail) if detail else "", ln, col)
@@ -641,6 +646,11 @@ class Interp:
             return select_term(rec.term, z(idx))
         if isinstance(base, Ref) and isinstance(st.heap.get(base.oid), TableRec):
             raise ToolLimit("read from an output table (line %s)" % node.lineno)
+        if isinstance(base, Ref) and isinstance(st.heap.get(base.oid), ObjRec) and st.heap[base.oid].cls.startswith("List["):
+            # a list of record objects indexed by a (symbolic) position: element k is the lazily created object "<list>[k]"
+            idx = self.ev(sl, st)
+            key = "[%s]" % (str(z3.simplify(z(idx))) if is_sym(idx) else str(idx))
+            return self.read_field(st, base, key, node)
         if isinstance(base, Opaque):
             return Opaque(base.tag + "[...]")
         raise ToolLimit("subscript of %r (line %s)" % (base, node.lineno))
@@ -773,7 +783,42 @@ class Interp:
         from .solve import quick_unsat
         return quick_unsat(st.pc)
 
+    def apply_cuts(self, s, st):
+        """assert / havoc / assume cut placed by the contract before a statement (identified by the prefix of its source text):
+        the listed clauses are proved on the current state, the listed locations are then forgotten and only the clauses are kept."""
+        cuts = self.ctx.contract.options.get("cuts")
+        if not cuts or self.ctx.cur_func.split("[")[0] != self.ctx.contract.name:
+            return
+        txt = None
+        for ci, cut in enumerate(cuts):
+            if txt is None:
+                txt = ast.unparse(s)
+            if not txt.startswith(cut["before"]):
+                continue
+            used = self.ctx.__dict__.setdefault("cuts_used", set())
+            used.add(ci)
+            from .loops import _oblige_conjuncts
+            from .spec import eval_clause
+            seq = st.copy()
+            for k, clause in enumerate(cut["assert"]):
+                _oblige_conjuncts(self, "cut_assert", clause, seq, s, "cut%d.%d" % (ci, k), ())
+            for loc in cut["havoc"]:
+                node = ast.parse(loc, mode="eval").body
+                cur = self.ev(node, st.copy())
+                so = V.sort_of(cur)
+                if so is None:
+                    raise ToolLimit("cut: cannot havoc %s" % loc)
+                nv = self.ctx.fresh("cut_" + loc.replace(".", "_"), so)
+                tgt = ast.parse(loc, mode="eval").body
+                tgt.ctx = ast.Store()
+                self.assign(tgt, nv, st, s)
+            for clause in cut["assert"]:
+                h = eval_clause(self, clause, st, -1)
+                if h is not True:
+                    st.pc.append(z(h))
+
     def exec_stmt(self, s, st):
+        self.apply_cuts(s, st)
         m = getattr(self, "st_" + type(s).__name__, None)
         if m is None:
             raise ToolLimit("statement %s (line %s)" % (type(s).__name__, s.lineno))
